@@ -211,8 +211,9 @@ func (e *env) dataCase(c Case) {
 				case 1:
 					p = spkt{flagSeed, rng.Bytes(32), vlib.Pick(rng, []int{0, 40})}
 					seeds++
-				case 2:
-					p = spkt{flagData, nil, vlib.Pick(rng, []int{0, 1, 500, maxPktPay})}
+				case 2, 3:
+					// legal edge shapes: header-only, padding only, maximal padding
+					p = spkt{flagData, nil, vlib.Pick(rng, []int{0, 0, 0, 1, 500, maxPktPay})}
 				default:
 					dl := vlib.Pick(rng, []int{1, 2, 16, 21, 100, 1000, maxPktPay - 1, maxPktPay, rng.Range(1, maxPktPay)})
 					pad := vlib.Pick(rng, []int{0, 0, 1, rng.Range(0, maxPktPay-dl)})
@@ -542,8 +543,14 @@ func (e *env) flipPrepare(target string) *flipPre {
 		t = spkt{flagTkt, rng.Bytes(144), 0}
 	case "seed":
 		t = spkt{flagSeed, rng.Bytes(32), 0}
-	case "empty":
+	case "empty": // header-only: MAC ‖ header, total length 0
 		t = spkt{flagData, nil, 0}
+	case "pad-only": // payload 0, padding > 0
+		t = spkt{flagData, nil, 5}
+	case "no-pad": // padding 0, payload > 0
+		t = spkt{flagData, rng.Bytes(9), 0}
+	case "max": // maximal packet
+		t = spkt{flagData, rng.Bytes(maxPktPay), 0}
 	case "big":
 		t = spkt{flagData, rng.Bytes(300), 10}
 	default:
@@ -565,9 +572,10 @@ func (e *env) flipPrepare(target string) *flipPre {
 }
 
 func (e *env) flipCases() {
-	targets := []string{"payload", "seed"}
+	// quick: every bit of a header-only packet, of a padding-only, a padding-free, a payload and a seed packet
+	targets := []string{"empty", "pad-only", "no-pad", "payload", "seed"}
 	if e.r.Thorough() {
-		targets = []string{"payload", "ticket", "seed", "empty", "big"}
+		targets = []string{"empty", "pad-only", "no-pad", "payload", "ticket", "seed", "big", "max"}
 	}
 	for _, t := range targets {
 		pre := e.flipPrepare(t)
@@ -605,6 +613,7 @@ func (e *env) flipCase(c Case, pre *flipPre) {
 	for _, ch := range chunks {
 		s.sc.Feed(ch)
 	}
+	s.sc.FeedEOF()
 	got, rerr, blocked, pan := s.read(len(stream), 4096)
 	part := "body"
 	switch {
@@ -633,7 +642,7 @@ func (e *env) flipCase(c Case, pre *flipPre) {
 		e.r.Violate("modified-packet-accepted", "impl-oracle",
 			fmt.Sprintf("%s packet, bit %d (%s) flipped: Read went on past the modified packet and delivered %d bytes (err=%v)", c.Target, c.Bit, part, len(got), rerr), c)
 		return
-	case rerr == nil:
+	case rerr == nil || rerr.Error() == "EOF":
 		e.r.Violate("modified-packet-not-reported", "impl-oracle",
 			fmt.Sprintf("%s packet, bit %d (%s) flipped: no error from Read (blocked=%v, delivered %d bytes) although %d more bytes followed", c.Target, c.Bit, part, blocked, len(got), len(stream)-pre.off-pre.tlen), c)
 		return
@@ -643,6 +652,143 @@ func (e *env) flipCase(c Case, pre *flipPre) {
 	if rep[0] != "ok" || !bytes.Equal(vlib.UnHex(rep[1]), got) || rep[4] != "1" {
 		e.r.Violate("model-impl-disagree-flip", "correspondence",
 			fmt.Sprintf("%s packet bit %d: implementation delivered %d bytes then %v; model %v", c.Target, c.Bit, len(got), rerr, rep[1:]), c)
+	}
+}
+
+// ---------------------------------------------------------------- a modified packet anywhere in a mixed burst
+
+func edgePacket(rng *vlib.Rng) spkt {
+	switch rng.Intn(9) {
+	case 0, 1, 2:
+		return spkt{flagData, nil, 0} // header-only
+	case 3:
+		return spkt{flagData, nil, rng.Range(1, 40)}
+	case 4:
+		return spkt{flagData, rng.Bytes(rng.Range(1, 40)), 0}
+	case 5:
+		return spkt{flagSeed, rng.Bytes(32), 0}
+	case 6:
+		return spkt{flagTkt, rng.Bytes(144), 0}
+	case 7:
+		return spkt{flagData, rng.Bytes(maxPktPay), 0}
+	default:
+		return spkt{flagData, rng.Bytes(rng.Range(1, 200)), rng.Range(0, 30)}
+	}
+}
+
+func (e *env) flipMixCases() {
+	n := e.r.Scale(250, 4000)
+	for i := 0; i < n; i++ {
+		e.flipMixCase(Case{Kind: "flipmix", Seed: e.seed, Sub: uint64(i)})
+	}
+}
+
+// flipMixCase: a burst of packets of mixed legal shapes (header-only packets prominent), one bit
+// of one packet flipped (half of the time in its MAC), then enough honest packets.
+// S: any modified packet ⇒ Read reports an error; what it delivered before is exactly the payload of
+// the packets in front of the modified one - a modified packet is never silently accepted.
+func (e *env) flipMixCase(c Case) {
+	rng := vlib.NewRng(e.seed*6151 + c.Sub*29 + 7)
+	id := "flipmix"
+	e.call("sess.new %s %s", id, vlib.Hex(e.dhSeed))
+	npk := rng.Range(2, 7)
+	j := rng.Intn(npk)
+	if rng.Intn(3) == 0 {
+		j = npk - 1
+	}
+	var stream, before, all []byte
+	off, tlen, shape := 0, 0, ""
+	for i := 0; i < npk; i++ {
+		p := edgePacket(rng)
+		if i == j && rng.Intn(2) == 0 {
+			p = spkt{flagData, nil, 0}
+		}
+		w := e.srvSend(id, p)
+		if i == j {
+			off, tlen = len(stream), len(w)
+			shape = fmt.Sprintf("flag%d/payload%d/pad%d", p.flag, len(p.data), p.pad)
+			before = append([]byte(nil), all...)
+		}
+		stream = append(stream, w...)
+		if p.flag == flagData {
+			all = append(all, p.data...)
+		}
+	}
+	for i := 0; i < 3; i++ {
+		fill := rng.Bytes(600)
+		all = append(all, fill...)
+		stream = append(stream, e.srvSend(id, spkt{flagData, fill, 0})...)
+	}
+	bit := rng.Intn(tlen * 8)
+	if rng.Intn(2) == 0 {
+		bit = rng.Intn(macLen * 8)
+	}
+	stream = flipBit(stream, off*8+bit)
+	var sizes []int
+	switch rng.Intn(3) {
+	case 1:
+		sizes = []int{off + bit/8, 1}
+	case 2:
+		for left := len(stream); left > 0; {
+			n := rng.Range(1, 300)
+			sizes = append(sizes, n)
+			left -= n
+		}
+	}
+	chunks := cutReads(chunkAt(stream, sizes), mss)
+	// a fresh bridge address per case: ticket packets of the burst must not turn a later
+	// handshake of this section into a ticket handshake
+	s, _, _, err := e.connect(e.cf, fmt.Sprintf("10.4.%d.%d:443", c.Sub/250, c.Sub%250), 0)
+	if err != nil {
+		e.r.Violate("handshake-fails", "impl-oracle", "plain UniformDH handshake failed: "+err.Error(), c)
+		return
+	}
+	defer s.close()
+	for _, ch := range chunks {
+		s.sc.Feed(ch)
+	}
+	// the server has nothing more to say: the stream ends
+	s.sc.FeedEOF()
+	got, rerr, blocked, pan := s.read(len(stream), 4096)
+	part := "body"
+	switch {
+	case bit < macLen*8:
+		part = "mac"
+	case bit < pktOvh*8:
+		part = "header"
+	}
+	c.Target = shape
+	e.r.Case(fmt.Sprintf("flipmix/%d/%d/%s/%d", npk, j, shape, bit), true)
+	e.r.Count("kind", "flipmix")
+	e.r.Count("flipmix_part", part)
+	if tlen == pktOvh {
+		e.r.Count("flipmix_shape", "header-only")
+	} else {
+		e.r.Count("flipmix_shape", "other")
+	}
+	what := fmt.Sprintf("packet %d of %d (%s, %d wire bytes), bit %d (%s) flipped", j+1, npk, shape, tlen, bit, part)
+	switch {
+	case pan != nil:
+		e.r.Violate("reader-panic", "impl-oracle", what+fmt.Sprintf(": Read panicked: %v", pan), c)
+		return
+	case !bytes.HasPrefix(all, got):
+		e.r.Violate("altered-data-delivered", "impl-oracle", what+fmt.Sprintf(": Read delivered %d bytes that are not a prefix of what the server sent (err=%v)", len(got), rerr), c)
+		return
+	case len(got) > len(before):
+		e.r.Violate("modified-packet-accepted", "impl-oracle", what+fmt.Sprintf(": Read went on past the modified packet: %d bytes delivered, %d were sent before it (err=%v)", len(got), len(before), rerr), c)
+		return
+	case rerr == nil || blocked || rerr.Error() == "EOF":
+		e.r.Violate("modified-packet-not-reported", "impl-oracle", what+fmt.Sprintf(": Read reported %v instead of an invalid packet (delivered %d bytes)", rerr, len(got)), c)
+		return
+	case len(got) < len(before):
+		e.r.Violate("payload-before-damage-not-delivered", "impl-oracle", what+fmt.Sprintf(": %d payload bytes were sent before it, Read delivered %d (err=%v)", len(before), len(got), rerr), c)
+		return
+	}
+	rep := e.call("cli.rxall %s %s %s", vlib.Hex(e.dhSeed), vlib.Hex(stream), intList(lens(chunks)))
+	e.r.Validated(1)
+	if rep[0] != "ok" || !bytes.Equal(vlib.UnHex(rep[1]), got) || rep[4] != "1" {
+		e.r.Violate("model-impl-disagree-flip", "correspondence",
+			what+fmt.Sprintf(": implementation delivered %d bytes then %v; model %v", len(got), rerr, rep[2:]), c)
 	}
 }
 
